@@ -427,7 +427,10 @@ func (e *env) mutants(rng *rand.Rand, s *stream, i int, post bool) []mutant {
 			own = k
 		}
 	}
-	for _, t := range []struct{ name, topic string }{{"next-subnet", topics[(own+1)%128]}, {"random-subnet", topics[(own+1+rng.Intn(127))%128]}, {"unknown-topic", "ssv.v2.unknown"}, {"empty-topic", ""}} {
+	ownBase := strings.TrimPrefix(hd.topic, "ssv.v2.")
+	for _, t := range []struct{ name, topic string }{{"next-subnet", topics[(own+1)%128]}, {"random-subnet", topics[(own+1+rng.Intn(127))%128]}, {"unknown-topic", "ssv.v2.unknown"}, {"empty-topic", ""},
+		{"own-subnet-with-leading-digit", "ssv.v2.1" + ownBase}, {"own-subnet-with-leading-zero", "ssv.v2.0" + ownBase}, {"own-subnet-with-trailing-digit", "ssv.v2." + ownBase + "0"},
+		{"own-name-doubled-prefix", "ssv.v2." + hd.topic}} {
 		d := hd
 		d.topic = t.topic
 		add("topic", t.name, false, d)
